@@ -221,6 +221,30 @@ Definition e_http (v : val) : val :=
   | _ => verr
   end.
 
+(* ---------------- replies read on a connection ---------------- *)
+Definition dec_rd (v : val) : option rd :=
+  match v with
+  | VL [VN m; VN 0] => Some (mkRd m RdOk)
+  | VL [VN m; VN 1] => Some (mkRd m (RdErr E421))
+  | VL [VN m; VN 2] => Some (mkRd m (RdErr E4xx))
+  | VL [VN m; VN 3] => Some (mkRd m (RdErr E5xx))
+  | VL [VN m; VN 4] => Some (mkRd m RdLost)
+  | _ => None
+  end.
+
+Definition e_reads (v : val) : val :=
+  match v with
+  | VL rds =>
+      match dec_all dec_rd rds with
+      | Some tr =>
+          VL [vbool (wf_reads tr);
+              VL (map (fun p => VL [VN (fst p); match snd p with Some k => VL [VN k] | None => VL [] end])
+                      (lost_sources error_source None tr))]
+      | None => verr
+      end
+  | _ => verr
+  end.
+
 Definition entries : list entry :=
   [("c19_deque"%string, e_deque); ("c19_run"%string, e_run); ("c19_fifo"%string, e_fifo);
-   ("c19_smtp"%string, e_smtp); ("c19_http"%string, e_http)].
+   ("c19_smtp"%string, e_smtp); ("c19_http"%string, e_http); ("c19_reads"%string, e_reads)].
